@@ -19,13 +19,21 @@ from . import core, util
 
 
 def closure_facts(mir, name):
+    """(path, calls) of the closure's one path; a closure with several paths (a fast path was added)
+    is reported through MultiPath so that the obligation about it fails instead of being skipped"""
     b = mir.body(name)
-    paths = core.Executor(b, max_depth=100, max_paths=50).run("bb0")
+    paths = [p for p in core.Executor(b, max_depth=100, max_paths=50).run("bb0") if p.end == "return"]
     if len(paths) != 1:
-        raise core.Unsupported("%s: %d paths" % (name, len(paths)))
+        raise MultiPath(name, paths)
     p = paths[0]
     calls = [e for e in p.events if e[0] == "call"]
     return p, calls
+
+
+class MultiPath(Exception):
+    def __init__(self, name, paths):
+        Exception.__init__(self, "%s: %d paths" % (name, len(paths)))
+        self.name, self.paths = name, paths
 
 
 def projs(t, env):
@@ -60,7 +68,15 @@ def run(thorough=False):
         if len(cmp_cl) != 2:
             raise core.Unsupported("sort: closures calling compare_term_test: %s" % cmp_cl)
         for n in cmp_cl:
-            p, calls = closure_facts(mir, n)
+            try:
+                p, calls = closure_facts(mir, n)
+            except MultiPath as mp_:
+                without = sum(1 for q in mp_.paths if not any(
+                    e[0] == "call" and e[1].endswith("compare_term_test") for e in q.events))
+                facts.append(("sort: the comparator / duplicate test is decided by compare_term_test on every path "
+                              "of its closure", False, "%d paths, %d of them answer without comparing the terms" % (
+                                  len(mp_.paths), without)))
+                continue
             ct = [c for c in calls if c[1].endswith("compare_term_test")]
             a1, a2 = projs(ct[0][2][1], p.env), projs(ct[0][2][2], p.env)
             in_order = a1 == (("s", "_2"), ["*"]) and a2 == (("s", "_3"), ["*"])
@@ -171,6 +187,13 @@ def run(thorough=False):
                       "list (try_from_inner_list), it is not a type error", lis_cont > 0 and lis_err == 0,
                       "continuing paths %d, rejecting paths %d" % (lis_cont, lis_err)))
         facts.append(("try_from_list: a string that ends in [] yields its characters", nil_ok > 0, ""))
+        all_calls = set()
+        for ls in b.blocks.values():
+            m = re.search(r"core::str::<impl str>::(chars|bytes|char_indices|as_bytes)\(", ls[-1])
+            if m:
+                all_calls.add(m.group(1))
+        facts.append(("try_from_list: a stored string contributes its characters (str::chars), not its bytes",
+                      all_calls == {"chars"}, "uses %s" % sorted(all_calls)))
     except Exception as e:  # noqa
         log("  mirsmt C14: cannot analyse (%s)" % e)
         return {"exit": EXIT_INCONCLUSIVE, "mirsmt_error": str(e)}
